@@ -172,7 +172,8 @@ func (w *World) GenTx(t *rapid.T, height uint64, kinds []string) []Tx {
 		return one(w.sign(k, &fsm.MessageEditStake{Address: chainsim.Addr(k), Amount: amt, Committees: []uint64{w.Chain}, NetAddress: "tcp://127.0.0.1", OutputAddress: chainsim.Addr(k)}, fee, height, w.Chain, ""),
 			"ok", fmt.Sprintf("edit-stake bls%d ->%d", i, amt))
 	case "pause", "unpause", "unstake":
-		i := rapid.IntRange(0, w.NVals-1).Draw(t, "val")
+		// validators 0 and 1 never pause or unstake: a generated mix must not empty the committee (then no chain exists)
+		i := rapid.IntRange(2, w.NVals-1).Draw(t, "val")
 		k := keys.BLS(i)
 		var m lib.MessageI
 		switch kind {
